@@ -112,6 +112,22 @@ func (fc *FCtx) evalCall(e *ast.CallExpr, st *State) []Val {
 	if isPureExtern(name) {
 		return fc.pureExternCall(name, fn, e, recvExpr, st)
 	}
+	if isFreshExtern(name) {
+		if recvExpr != nil {
+			fc.evalRecvExpr(recvExpr, st)
+		}
+		fc.evalDroppedArgs(e, st)
+		fc.assumed["external call modelled as returning arbitrary well-typed values without touching modelled state: "+name] = true
+		var res []Val
+		for i := 0; i < sig.Results().Len(); i++ {
+			rt := sig.Results().At(i).Type()
+			s := fc.U.SortOf(rt)
+			v := Val{T: fc.U.Fresh("ext_"+fn.Name(), s), S: s, GoT: rt}
+			st.assume(fc.U.WF(v))
+			res = append(res, v)
+		}
+		return res
+	}
 	oos("call to %s without contract", name)
 	return nil
 }
@@ -127,6 +143,23 @@ var pureExternPrefixes = []string{
 	"github.com/cometbft/cometbft/crypto/tmhash.",
 	"(*github.com/bandprotocol/chain/v3/app.BandApp).AppCodec",
 	"(*github.com/cometbft/cometbft/abci/types.ResponseQuery).",
+}
+
+var freshExternPrefixes = []string{
+	"time.Now", "time.Sleep", "time.Since",
+	"(github.com/cosmos/cosmos-sdk/crypto/keyring.Keyring).",
+	"(*cosmossdk.io/errors.Error).ABCICode", "(cosmossdk.io/errors.Error).ABCICode",
+	"(github.com/cometbft/cometbft/rpc/client.ABCIClient).", "(github.com/cometbft/cometbft/rpc/client.Client).",
+	"context.Background", "context.WithTimeout",
+}
+
+func isFreshExtern(name string) bool {
+	for _, p := range freshExternPrefixes {
+		if strings.HasPrefix(name, p) {
+			return true
+		}
+	}
+	return false
 }
 
 func isPureExtern(name string) bool {
@@ -273,12 +306,9 @@ func (fc *FCtx) convert(e *ast.CallExpr, to types.Type, st *State) Val {
 			return Val{T: x.T, S: SInt, GoT: to}
 		}
 		return Val{T: app("wrap_"+mn, x.T), S: SInt, GoT: to}
-	case ts.Kind == KFloat && x.S.Kind == KInt:
-		if !fc.fpMode {
-			oos("float conversion outside fp mode")
-		}
+	case ts.Name == "F64" && x.S.Kind == KInt:
 		return fc.intToFloat(x, from)
-	case ts.Kind == KInt && x.S.Kind == KFloat:
+	case ts.Kind == KInt && x.S.Name == "F64":
 		return fc.floatToInt(x, to, st)
 	case ts == x.S:
 		return Val{T: x.T, S: ts, GoT: to}
